@@ -36,6 +36,7 @@ PLAN = {
         ("miri", "tokio", "A", 6, 2, 4),
         ("miri", "xthread", "AB", 3, 4, 4),
     ],
+    "C18": [("callgrind", "growth", "A", 8, 0, 0)],
     "C20": [("tsan", "threads", "AB", 8, 200, 6), ("miri", "threads", "AB", 4, 2, 4), ("miri", "director", "A", 2, 2, 5)],
 }
 
@@ -104,6 +105,60 @@ def _classify(engine, mode, out, err, rc):
     return viol, reports, inconc, execs
 
 
+def callgrind_growth(check, cfg, seed, jobs):
+    """C18: instruction counts (callgrind Ir, deterministic) of build() along the 8 growth
+    families; three consecutive +2-layer steps each multiplying the count by >= 3 = violation."""
+    ok, err = check.cargo_build(cfg, bins=("fgv_build",))
+    if not ok:
+        return {"inconclusive": [f"callgrind.{cfg}: build failed: {err[-800:]}"], "violations": [], "summary": {}}
+    binp = check.bin_path(cfg, "fgv_build")
+
+    def family(fam):
+        series = []
+        size = 10
+        while size <= 44:
+            cmd = ["valgrind", "--tool=callgrind", "--callgrind-out-file=/dev/null", "--toggle-collect=*build_measured*", binp, "--family", str(fam), "--size", str(size), "--seed", str(seed)]
+            try:
+                p = subprocess.run(cmd, cwd=check.VERIF, env=check.ENV, stdout=subprocess.PIPE, stderr=subprocess.PIPE, text=True, timeout=900)
+            except subprocess.TimeoutExpired:
+                return fam, series, "timeout"
+            m = re.search(r"Collected : (\d+)", p.stderr)
+            n = re.search(r"functions=(\d+)", p.stdout)
+            if not m or not n:
+                return fam, series, f"no count (rc={p.returncode}): {p.stderr[-300:]}"
+            series.append((int(n.group(1)), int(m.group(1))))
+            if int(m.group(1)) > 400_000_000:
+                break
+            size += 2
+        return fam, series, None
+
+    out = {"inconclusive": [], "violations": [], "summary": {}}
+    with ThreadPoolExecutor(max_workers=min(8, jobs)) as ex:
+        results = list(ex.map(family, range(8)))
+    worst = 0.0
+    points = 0
+    for fam, series, err in results:
+        points += len(series)
+        if err:
+            out["inconclusive"].append(f"callgrind.{cfg}: family {fam}: {err}")
+            continue
+        run = 0
+        for i in range(1, len(series)):
+            a, b = series[i - 1][1], series[i][1]
+            r = b / max(a, 1)
+            if b >= 1_000_000:
+                worst = max(worst, r)
+            if b >= 1_000_000 and r >= 3.0:
+                run += 1
+                if run >= 3:
+                    out["violations"].append({"prop": "C18", "kind": "build-instruction-count-grows-geometrically", "config": f"callgrind-{cfg}", "detail": f"growth family {fam}: instructions executed by build() (callgrind Ir) multiply by >= 3.0 on three consecutive +2-layer steps: (functions, instructions) = {series[:i + 1]}", "case": f"growth_family={fam}|seed={seed}", "log": ""})
+                    break
+            else:
+                run = 0
+    out["summary"] = {"families": 8, "points_measured": points, "max_step_ratio": round(worst, 2), "series": {str(f): s for f, s, _ in results}}
+    return out
+
+
 def run(check, prop, seed, jobs):
     plan = PLAN.get(prop)
     if not plan:
@@ -112,6 +167,13 @@ def run(check, prop, seed, jobs):
     violations, reports, inconclusive = [], [], []
     t0 = time.time()
     for engine, mode, cfgs, nprocs, iters, max_n in plan:
+        if engine == "callgrind":
+            for cfg in cfgs:
+                r = callgrind_growth(check, cfg, seed, jobs)
+                violations += r["violations"]
+                inconclusive += r["inconclusive"]
+                summary[f"callgrind.growth.{cfg}"] = r["summary"]
+            continue
         for cfg in cfgs:
             ok, prefix, err, env = _build(check, engine, cfg)
             key = f"{engine}.{mode}.{cfg}"
